@@ -723,11 +723,13 @@ def write_rdfxml(rows, flags=frozenset()):
 # JSON-LD
 
 JSONLD_FLAGS = ["context-prefix", "vocab", "base", "type-coercion", "language-default", "list", "nested", "graph-wrapper", "native", "type-keyword", "set-array",
-                "alias", "context-array", "null-noise", "unmapped-keys", "reverse", "value-objects", "container-list", "datatype-coercion", "anonymous", "file-base"]
+                "alias", "context-array", "null-noise", "unmapped-keys", "reverse", "value-objects", "container-list", "datatype-coercion", "anonymous", "file-base", "embedded-alias"]
 ALIASES = {"@id": "id", "@type": "type", "@value": "value", "@language": "lang", "@graph": "graph", "@list": "list", "@reverse": "rev"}
 
 
 def write_jsonld(rows, flags=frozenset(), dataset=False):
+    if "embedded-alias" in flags:
+        flags = frozenset(flags) | {"vocab"}
     ctx = {}
     if "context-prefix" in flags:
         ctx["ex"] = EX
@@ -891,6 +893,34 @@ def write_jsonld(rows, flags=frozenset(), dataset=False):
             docs += nodes
         else:
             docs.append({"@id": node_id(g), "@graph": nodes})
+    if "embedded-alias" in flags and "alias" not in flags:
+        # the document-wide context aliases @id as "uri"; ONE node object carries its own context with a second alias for @id, whose name is a
+        # plain (vocabulary-relative) property name of a LATER node object: inside the first node it is the keyword, afterwards a property again
+        def rename_id(x):
+            if isinstance(x, dict):
+                return {("uri" if k == "@id" else k): rename_id(v) for k, v in x.items()}
+            if isinstance(x, list):
+                return [rename_id(v) for v in x]
+            return x
+        renamed = rename_id(docs)
+        plain = lambda k: isinstance(k, str) and re.match(r"^[A-Za-z_][A-Za-z0-9_]*$", k) and k != "uri"  # noqa: E731
+        done = False
+        for i, n1 in enumerate(renamed):
+            if not isinstance(n1, dict) or "uri" not in n1 or "@graph" in n1:
+                continue
+            inside = json.dumps(n1)
+            later = [k for n2 in renamed[i + 1:] if isinstance(n2, dict) and "@graph" not in n2 for k in n2 if plain(k) and ('"%s"' % k) not in inside]
+            if later:
+                name = later[0]
+                n1 = dict(n1)
+                n1[name] = n1.pop("uri")
+                n1["@context"] = {name: "@id"}
+                renamed[i] = n1
+                done = True
+                break
+        if done:
+            docs = renamed
+            ctx["uri"] = "@id"
     if "alias" in flags:
         def rename(x):
             if isinstance(x, dict):
